@@ -181,6 +181,10 @@ type C16PipeCase struct {
 	// Reweight: after the first sync only the configured weights change (same pods, same endpoints) and the
 	// written weights are checked again: a weights-only change must not be mistaken for "nothing changed"
 	Reweight []int `json:"reweight,omitempty"`
+	// NoDynScaling: the backend declares dynamic-scaling "false" (changes are applied by reloads only)
+	NoDynScaling bool `json:"noDynScaling,omitempty"`
+	// Pad (annotation modes): number of zeros written in front of each group's weight ("010" is ten)
+	Pad []int `json:"pad,omitempty"`
 }
 
 func genC16Pipe(t *rapid.T) C16PipeCase {
@@ -202,6 +206,12 @@ func genC16Pipe(t *rapid.T) C16PipeCase {
 	}
 	if c.Mode != "gateway" {
 		c.Unlabeled = rapid.IntRange(0, 2).Draw(t, "unlabeled")
+		c.NoDynScaling = chanceT(t, "nodynscaling", 30)
+		if chanceT(t, "padded", 25) {
+			for range c.Groups {
+				c.Pad = append(c.Pad, rapid.IntRange(0, 2).Draw(t, "pad"))
+			}
+		}
 		if chanceT(t, "reweight", 35) {
 			for range c.Groups {
 				c.Reweight = append(c.Reweight, rapid.SampledFrom([]int{0, 1, 2, 3, 10, 50, 100}).Draw(t, "w2"))
@@ -285,14 +295,18 @@ func c16PipeWorld(c C16PipeCase) ([]*world.Obj, map[string]string) {
 		}
 	}
 	var parts []string
-	for _, g := range c.Groups {
+	for gi, g := range c.Groups {
 		for k := 0; k < g.Ready; k++ {
 			addPod(g.Label, true)
 		}
 		for k := 0; k < g.NotReady; k++ {
 			addPod(g.Label, false)
 		}
-		parts = append(parts, fmt.Sprintf("group=%s=%d", g.Label, g.Weight))
+		w := fmt.Sprint(g.Weight)
+		if gi < len(c.Pad) {
+			w = strings.Repeat("0", c.Pad[gi]) + w
+		}
+		parts = append(parts, fmt.Sprintf("group=%s=%s", g.Label, w))
 	}
 	for k := 0; k < c.Unlabeled; k++ {
 		addPod("", true)
@@ -305,6 +319,9 @@ func c16PipeWorld(c C16PipeCase) ([]*world.Obj, map[string]string) {
 	ann := map[string]string{c.Key: strings.Join(parts, ","), "initial-weight": fmt.Sprint(c.Initial)}
 	if c.Mode == "deploy" || c.Mode == "pod" {
 		ann["blue-green-mode"] = c.Mode
+	}
+	if c.NoDynScaling {
+		ann["dynamic-scaling"] = "false"
 	}
 	objs = append(objs, &world.Obj{Kind: world.KIngress, NS: "a", Name: "i1", ClassName: sp(world.OurClass), Ann: ann,
 		Rules: []world.Rule{{Host: "h1.local", Paths: []world.Path{{Path: "/", Type: "Prefix", Svc: "s1", Port: "80"}}}}})
